@@ -46,7 +46,7 @@ def leaves():
     hi, hf = harvest_constants()
     ints = [ir.IntegerLiteral(v) for v in sorted(set([0, 1, 2] + hi))] + [ir.Variable("i"), ir.Variable("j"),
                                                                            ir.ArrayIndex(ir.Variable("A"), ir.Variable("i"))]
-    floats = [ir.FloatLiteral(v) for v in sorted(set([0.0, 1.0, 2.5] + hf))] + [ir.FloatLiteral(-0.0), ir.Variable("x"), ir.Variable("y"),
+    floats = [ir.FloatLiteral(v) for v in sorted(set([0.0, 1.0, 2.5, 0.30000000000000004, 1e-07, 6.0221407600000005e23] + hf))] + [ir.FloatLiteral(-0.0), ir.Variable("x"), ir.Variable("y"),
                                                                                ir.ArrayIndex(ir.Variable("X"), ir.Variable("j"))]
     bools = [ir.BooleanLiteral(True), ir.BooleanLiteral(False), ir.Variable("b")]
     return ints, floats, bools
